@@ -12,7 +12,7 @@ RELATED = {
             ("lints", ["L.partial-write", "L.partial-read", "L.try-send"])],
     "C03": [("c08", ["R08.1", "R08.2", "R08.3"]), ("c09", ["R09.1", "R09.2", "R09.3", "R09.5"]), ("c11", ["R11.2"]), ("c12", ["R12.1", "R12.4", "R12.7"]),
             ("c04", ["R04.4", "R04.6", "R04.8", "R04.9"]), ("lints", ["L.partial-write", "L.partial-read", "L.try-send", "L.file-create-truncate"])],
-    "C04": [("lints", ["L.partial-write", "L.try-send"])],
+    "C04": [("c08", ["R08.7"]), ("lints", ["L.partial-write", "L.try-send"])],
     "C05": [("c10", ["R10.1", "R10.2", "R10.3", "R10.4", "R10.6"]), ("c09", ["R09.3", "R09.4", "R09.5"]), ("c12", ["R12.6", "R12.7"]),
             ("lints", ["L.partial-read", "L.process-exit"])],
     "C06": [("c15", ["R15.1"])],
@@ -25,7 +25,7 @@ RELATED = {
     "C12": [("lints", ["L.partial-read"])],
     "C13": [],
     "C14": [("c13", ["R13.2"])],
-    "C15": [("c07", ["R07.2"]), ("lints", ["L.try-lock"])],
+    "C15": [("c07", ["R07.2"]), ("c08", ["R08.7"]), ("lints", ["L.try-lock"])],
     "C16": [("c12", ["R12.6"]), ("lints", ["L.process-exit"])],
 }
 
